@@ -1330,7 +1330,7 @@ def _hashable(x):
     if isinstance(x, Rat):
         c = x.const_value()
         return c if c is not None else x.key()
-    if isinstance(x, list):
+    if isinstance(x, (list, tuple)):
         return tuple(_hashable(i) for i in x)
     if is_num(x) and not isinstance(x, Fraction):
         return nf.frac(x)
